@@ -75,6 +75,10 @@ pub fn generate(seed: u64, n_cases: usize, out: &Path, only: Option<usize>) -> R
                 t.push('\r');
                 t.push('x');
             }
+            // ... also at the very end of a last line that has no line feed (only LF terminates a line)
+            if last && term.is_empty() && rng.chance(1, 2) {
+                t.push('\r');
+            }
             input.push_str(&t);
             input.push_str(term);
             if term.is_empty() && t.is_empty() {
